@@ -285,6 +285,8 @@ def main(tier):
     combos = [(gs, csr, w, c) for gs in (1, -1, 0) for csr in (True, False) for w in (True, False) for c in (True, False)]
     jobs += [(job_factory, (n, gs, csr, w, c)) for n in ((8,) if tier == 'quick' else (8, 9, 3)) for (gs, csr, w, c) in combos]
     jobs += [(job_parallel_plates_shape, (n, 0.032)) for n in ((8, 9, 5) if tier == 'quick' else (8, 9, 5, 7, 16, 17, 3))]
+    import c14 as _c14
+    jobs += [(_c14.job_process_state, ())]      # a model's samples must not depend on an earlier request of the process (caches)
     jobs += [(job_factory_file, (n, L, gs, w)) for n, L in ((8, 3), (8, 8), (5, 9), (8, 0)) for gs, w in ((0, False), (-1, True), (-1, False))]      # impedance table alone / on top of analytic contributions; shorter, equal, longer, empty
     chk.bounds = {'sample counts': list(ns), 'factory': 'every combination of gap <,=,> 0, use_csr, wall (s>0, xi>=-1), collimator (0<r<|gap|/2) without impedance file; with a table of 0/3/8/9 arbitrary samples alone and on top of the wall model; all physical parameters symbolic positive reals'}
     chk.assumptions = ['powf/sqrt/log are uninterpreted functions with pow,sqrt >= 0 and log x > 0 for x > 1 (same symbol in code and specification): the cube-root/square-root laws are statements about the exponent/function used',
